@@ -3,7 +3,7 @@ CONSTANTS
   Sess <- S2
   Menu <- MenuQ
   Creates <- CreatesQ
-  Fees <- F01
+  Fees <- F12
   Pre <- PreA
   MaxTime = 5
   MaxLen = 3
